@@ -87,7 +87,9 @@ def step (s : St) (toks : List String) : St × String :=
       let eh := argEh toks
       let s := declare s p eh
       let c := codecOf s.table
-      ({ s with g := s.g.write B (frame c p) }, s!"ok eh={showEh (c.eh p)}")
+      match s.g.encodeWrite B c p with
+      | none => (s, "err-toobig")          -- the real Encode returns "msg is too big"; nothing is written
+      | some g => ({ s with g := g }, s!"ok eh={showEh (c.eh p)}")
   | "decl" :: _ =>
     match argRle? toks "p" with
     | none => (s, "bad-op")
